@@ -5,7 +5,8 @@ use std::io::{self, Write};
 
 use self::{number::write_number, ty::write_type};
 use super::{
-    write_delimiter, write_description_field, write_key, write_other_fields, write_separator,
+    write_delimiter, write_description_field, write_idx_field, write_key, write_other_fields,
+    write_separator,
 };
 use crate::header::record::value::{
     Map,
@@ -22,6 +23,7 @@ where
     write_number_field(writer, format.number())?;
     write_type_field(writer, format.ty())?;
     write_description_field(writer, format.description())?;
+    write_idx_field(writer, format.idx())?;
     write_other_fields(writer, format.other_fields())?;
     Ok(())
 }
